@@ -34,9 +34,8 @@ func tierMenus(g *vlib.G) *menus {
 			ldDeltas: []int{0, 1, 3},
 			realSc:   []complex128{0, 1, -1, 2, 0.5},
 			cmplxSc:  []complex128{0, 1, 1i, -1 + 2i, 0.5},
-			fills: []fillSpec{{0, 0, false}, {1, 2, false}, {2, 2, true},
-				{3 + uint64(g.Seed&0xffffff), 0, true}},
-			band: func(n int) []int { return dedup([]int{0, 1, 2, n - 1, n + 1}) },
+			fills:    []fillSpec{{0, 0, false}, {1, 2, false}, {2 + uint64(g.Seed&0xffffff), 2, true}},
+			band:     func(n int) []int { return dedup([]int{0, 1, 2, n - 1, n + 1}) },
 		}
 	}
 	return &menus{
